@@ -31,9 +31,33 @@ pub enum Op {
 
 #[derive(Clone, Debug, Serialize, Deserialize)]
 pub struct Plan {
+    /// a span shared by two extra threads: one has it entered and emits `.0` metrics, the other
+    /// records its `shared` field `.1` times with a value whose formatting is a scheduling point
+    #[serde(default)]
+    pub shared_span: Option<(u32, u32)>,
     /// 0 include all, 1 allow-list [shared, user], 2 custom (drops span labels whose value starts with 'x', and all for metric "m_skip")
     pub filter: u8,
     pub threads: Vec<Vec<Op>>,
+}
+
+/// A field value whose formatting passes a scheduling point: the layer formats recorded values
+/// (`Labels::from_record`) before it takes tracing-subscriber's span-extension lock, so another
+/// thread may run in the middle of a `record()`. (Nothing may yield *inside* that lock, a real lock
+/// of a dependency: the emitting thread's call is therefore one indivisible step below.)
+struct Yielding(u64);
+impl std::fmt::Debug for Yielding {
+    fn fmt(&self, f: &mut std::fmt::Formatter<'_>) -> std::fmt::Result {
+        if dsim::in_sim() {
+            dsim::point("c17.value.fmt");
+        }
+        write!(f, "{}", self.0)
+    }
+}
+struct Plain(u64);
+impl std::fmt::Debug for Plain {
+    fn fmt(&self, f: &mut std::fmt::Formatter<'_>) -> std::fmt::Result {
+        write!(f, "{}", self.0)
+    }
 }
 
 #[derive(Clone)]
@@ -84,7 +108,7 @@ impl Scenario for C17Tracing {
                     .map(|_| match r.below(10) {
                         0..=2 if depth < 5 => {
                             depth += 1;
-                            Op::Enter(if r.chance(200) { 4 + r.below(2) as u8 } else { r.below(4) as u8 }, r.below(4) as u8)
+                            Op::Enter(if r.chance(200) { 4 + r.below(3) as u8 } else { r.below(4) as u8 }, r.below(4) as u8)
                         }
                         3 if depth > 0 => {
                             depth -= 1;
@@ -96,7 +120,8 @@ impl Scenario for C17Tracing {
                     .collect()
             })
             .collect();
-        Plan { filter: r.below(3) as u8, threads }
+        let shared_span = if r.chance(300) { Some((r.range(1, 4) as u32, r.range(1, 3) as u32)) } else { None };
+        Plan { shared_span, filter: r.below(3) as u8, threads }
     }
     fn execute(&self, plan: &Plan, sched: &SchedSpec) -> RunReport {
         let log = new_log();
@@ -131,7 +156,7 @@ impl Scenario for C17Tracing {
                                 Op::Enter(kind, v) => {
                                     let s = val(*v);
                                     let n = *v as u64 + 10;
-                                    let (sp, own): (tracing::Span, Vec<(&str, String)>) = match kind % 6 {
+                                    let (sp, own): (tracing::Span, Vec<(&str, String)>) = match kind % 7 {
                                         // wide spans: two of them nested carry more labels than the pooled label
                                         // maps keep capacity for
                                         4 => (span!(tracing::Level::INFO, "wide_a", wa0 = n, wa1 = n, wa2 = n, wa3 = n, wa4 = n, wa5 = n, wa6 = n, wa7 = n, wa8 = n, wa9 = n, wa10 = n, wa11 = n, wa12 = n, wa13 = n, wa14 = n, wa15 = n), ["wa0", "wa1", "wa2", "wa3", "wa4", "wa5", "wa6", "wa7", "wa8", "wa9", "wa10", "wa11", "wa12", "wa13", "wa14", "wa15"].iter().map(|k| (*k, n.to_string())).collect()),
@@ -140,15 +165,17 @@ impl Scenario for C17Tracing {
                                         1 => (span!(tracing::Level::INFO, "k1", shared = -(n as i64), mid_only = (*v % 2 == 0), late = Empty), vec![("shared", (-(n as i64)).to_string()), ("mid_only", (*v % 2 == 0).to_string())]),
                                         2 => (span!(tracing::Level::INFO, "k2", shared = ?s, leaf = s.as_str()), vec![("shared", format!("{:?}", s)), ("leaf", s.clone())]),
                                         3 => (span!(tracing::Level::INFO, "k3", late = Empty), vec![]),
+                                        // explicit root: not a child of the span that is current here
+                                        6 => (span!(parent: None, tracing::Level::INFO, "detached", leaf = s.as_str(), own_root = n), vec![("leaf", s.clone()), ("own_root", n.to_string())]),
                                         _ => unreachable!(),
                                     };
                                     let mut labels: Labels = own.into_iter().map(|(k, v)| (k.to_string(), v)).collect();
-                                    if let Some((_, parent)) = model.last() {
+                                    if let (Some((_, parent)), true) = (model.last(), kind % 7 != 6) {
                                         for (k, v) in parent {
                                             labels.entry(k.clone()).or_insert_with(|| v.clone());
                                         }
                                     }
-                                    model.push((*kind % 6, labels));
+                                    model.push((*kind % 7, labels));
                                     entered.push(sp.entered());
                                 }
                                 Op::Exit => {
@@ -233,6 +260,74 @@ impl Scenario for C17Tracing {
                     });
                 }));
             }
+            if let Some((emits, records)) = p.shared_span {
+                // (record invoked, record returned, value) of the recording thread
+                let recs: Arc<Mutex<Vec<(u64, u64, String)>>> = Arc::new(Mutex::new(vec![]));
+                let sp = tracing::dispatcher::with_default(&dispatch, || span!(tracing::Level::INFO, "shared_span", user = "u0", shared = 1u64));
+                {
+                    let (sp, dispatch, rec, log, errors, recs, filter) = (sp.clone(), dispatch.clone(), rec.clone(), l2.clone(), e2.clone(), recs.clone(), p.filter);
+                    hs.push(dsim::spawn("shared-emitter", move || {
+                        let tid = dsim::tid();
+                        tracing::dispatcher::with_default(&dispatch, || {
+                            let _e = sp.entered();
+                            for i in 0..emits {
+                                dsim::point("c17.shared.emit");
+                                let key = Key::from_name("m_one");
+                                let before = log.lock().unwrap().len();
+                                let inv = dsim::step();
+                                // one indivisible step: the layer reads the span's extensions under
+                                // tracing-subscriber's real lock, and a scheduling point (the key's
+                                // atomics) inside that region would let the recording thread block
+                                // on the lock for real
+                                dsim::passthrough(true);
+                                drop(rec.register_counter(&key, &MD));
+                                dsim::passthrough(false);
+                                let ret = dsim::step();
+                                let l = log.lock().unwrap();
+                                let evs: Vec<_> = l[before..].iter().filter(|e| e.tid == tid && e.op.starts_with("register")).collect();
+                                if evs.len() != 1 {
+                                    errors.lock().unwrap().push(("emission-count".into(), format!("shared-span emitter: {} recorder calls for one emission", evs.len())));
+                                    continue;
+                                }
+                                let got: BTreeMap<String, String> = evs[0].labels.iter().cloned().collect();
+                                // values the `shared` field may show: the last record completed before the
+                                // emission began (else the initial 1) or any record overlapping the emission
+                                let rs = recs.lock().unwrap().clone();
+                                let mut ok_vals: Vec<String> = rs.iter().filter(|r| r.0 < ret && r.1 > inv).map(|r| r.2.clone()).collect();
+                                ok_vals.push(rs.iter().filter(|r| r.1 < inv).last().map(|r| r.2.clone()).unwrap_or_else(|| "1".to_string()));
+                                let user_ok = got.get("user").map(|v| v == "u0").unwrap_or(!filter_ok(filter, "m_one", "user", "u0"));
+                                let shared_ok = match got.get("shared") {
+                                    Some(v) => ok_vals.contains(v),
+                                    None => ok_vals.iter().any(|v| !filter_ok(filter, "m_one", "shared", v)),
+                                };
+                                if !user_ok || !shared_ok || got.len() > 2 {
+                                    errors.lock().unwrap().push(("labels-differ".into(), format!("emission {} (steps {}..{}) inside a span that another thread is recording a field on reached the recorder with {:?}; expected user=u0 and shared in {:?} (filter {}); records (invoked, returned, value): {:?}", i, inv, ret, got, ok_vals, filter, rs)));
+                                }
+                            }
+                        });
+                    }));
+                }
+                {
+                    let (sp, dispatch, recs) = (sp.clone(), dispatch.clone(), recs.clone());
+                    hs.push(dsim::spawn("shared-recorder", move || {
+                        tracing::dispatcher::with_default(&dispatch, || {
+                            for j in 0..records {
+                                dsim::point("c17.shared.record");
+                                let val = Yielding(100 + j as u64);
+                                // the record is announced before it starts so that an emission overlapping
+                                // it finds it in the list
+                                let idx = {
+                                    let mut r = recs.lock().unwrap();
+                                    r.push((dsim::step(), u64::MAX, format!("{:?}", Plain(val.0))));
+                                    r.len() - 1
+                                };
+                                sp.record("shared", tracing::field::debug(&val));
+                                recs.lock().unwrap()[idx].1 = dsim::step();
+                            }
+                        });
+                    }));
+                }
+            }
             for h in hs {
                 h.join();
             }
@@ -284,6 +379,15 @@ impl Scenario for C17Tracing {
             let mut q = p.clone();
             q.filter = 0;
             out.push(q);
+        }
+        if let Some((e, r)) = p.shared_span {
+            out.push(Plan { shared_span: None, ..p.clone() });
+            if e > 1 {
+                out.push(Plan { shared_span: Some((e - 1, r)), ..p.clone() });
+            }
+            if r > 1 {
+                out.push(Plan { shared_span: Some((e, r - 1)), ..p.clone() });
+            }
         }
         out
     }
